@@ -285,9 +285,10 @@ impl Outcome {
 }
 
 impl Hist {
-    fn new(rng: &mut Rng, shard: usize, index: u64, cloud: bool) -> Hist {
+    fn new(rng: &mut Rng, shard: usize, index: u64, cloud: bool, backup: bool) -> Hist {
         let mut cfg = WorldCfg::regtest(rng.bytes::<32>());
         cfg.cloud = cloud;
+        cfg.backup = backup;
         cfg.policy.max_invoices = 100_000;
         let world = World::new(cfg);
         Hist { world, chans: vec![], log: vec![], next_dbid: 1, fresh_tag: (shard as u64) << 40 | index << 20, keysend_tag: 0, secp: Secp256k1::new(), shard, index, c11_known: BTreeSet::new(), c11_ext_known: BTreeSet::new(), c11_probe_known: 0, c11_ext_conflicts: 0, shared_hash_enabled: false, shared_registered: false }
@@ -1636,7 +1637,13 @@ fn c11_external(h: &mut Hist, live: &snapshot::Snapshot, now: u64, r: &mut Repor
 
 fn run_history(rng: &mut Rng, r: &mut Report, cli: &Cli, prop: Prop, shard: usize, index: u64, steps: u64) {
     let cloud = matches!(prop, Prop::C10 | Prop::C11) && index % 3 == 2;
-    let mut h = Hist::new(rng, shard, index, cloud);
+    // C11: a third of the plain-store fault histories run on the main + backup composite persister (the signer
+    // restarts from the main store, which is also the one that fails)
+    let backup = prop == Prop::C11 && !cloud && index % 6 == 1;
+    if backup {
+        r.count("histories_on_main_plus_backup_store");
+    }
+    let mut h = Hist::new(rng, shard, index, cloud, backup);
     h.shared_hash_enabled = matches!(prop, Prop::C10 | Prop::C11) && index % 2 == 0;
     if matches!(prop, Prop::C10 | Prop::C11) && index % 3 == 1 {
         // fill the tracker's header window (MAX_REORG_SIZE = 100) so that requests act on a full window
@@ -1734,7 +1741,12 @@ fn run_history(rng: &mut Rng, r: &mut Report, cli: &Cli, prop: Prop, shard: usiz
         let kind = op_kind(&op);
         if fired > 0 {
             fault_from = None;
-            c11_suspended = true;
+            // a request that is acknowledged although one of its writes failed gets no allowance: what it
+            // acknowledged must be in the store like anything else
+            c11_suspended = !out.res.is_ok();
+            if out.res.is_ok() {
+                r.count("storage_fault.request_acknowledged_although_a_write_failed");
+            }
             r.sig_suffix = format!(":after-storage-failure-in-{}{}", kind, if matches!(op, Op::ValidateHolder { api: Api::Handler(4) | Api::HandlerRaw(4), .. }) { ":old-protocol" } else { "" });
             r.count("storage_fault.episodes");
             r.count(&format!("storage_fault.{}.{}.{}", kind, op_api(&op), match &out.res { Res::Ok => "ok", Res::Err(_) => "err", Res::Panic(_) => "panic" }));
